@@ -1,4 +1,5 @@
 import TeosVerif.Model.Tower
+import TeosVerif.Model.Admin
 import TeosVerif.Model.Crash
 import TeosVerif.Driver.Util
 /- `tw …` lines: drives `Model.Tower`. -/
@@ -108,6 +109,25 @@ def dump (s : Tower) : String :=
     s!"l{k.1}/u{k.2}:t{t.dispute}:t{t.penalty}:{fmtStatus t.status}"
   s!"users=[{joinWith " " memU}] dbusers=[{joinWith " " dbU}] appts=[{joinWith " " ap}] trackers=[{joinWith " " tr}]"
 
+def fmtAdminItem : AdminItem → String
+  | .appt l b t => s!"a:l{l}:{fmtBlob b}:{t}"
+  | .tracker d p => s!"t:t{d}:t{p}"
+
+/-- the private API's view, canonicalised as the harness does -/
+def admin (s : Tower) : String :=
+  let i := adminTowerInfo s
+  let us := sortDedup (adminUsers s)
+  let seen := sortDedup s.db.userKeys
+  let perUser := seen.map fun u => match adminUser s u with
+    | some (sl, ex, locs) => s!"u{u}:{sl}/{ex}:{joinWith "," (sortS (locs.map fun l => s!"l{l}"))}"
+    | none => s!"u{u}:NotFound"
+  let all := sortS ((adminAppointments s none).map fmtAdminItem)
+  let locs := sortDedup (s.db.apptKeys.map (·.1))
+  let byLoc := locs.filterMap fun l =>
+    let f := sortS ((adminAppointments s (some l)).map fmtAdminItem)
+    if f.isEmpty then none else some s!"l{l}={joinWith "+" f}"
+  s!"info={i.nUsers}/{i.nAppointments}/{i.nTrackers}/{if i.reachable then 1 else 0} users=[{joinWith " " (us.map fun u => s!"u{u}")}] user=[{joinWith " " perUser}] all=[{joinWith " " all}] byloc=[{joinWith " " byLoc}]"
+
 def parseTxs (w : String) : Option (List Nat) := (splitComma w).mapM num1
 
 def parseBootBlock (w : String) : Option (Nat × List Nat) :=
@@ -185,6 +205,7 @@ def twStep (st : TwState) (ws : List String) : TwState × String :=
       finishOp st was s' ("ok " ++ fmtRpcs lg)
     | _, _ => (st, "bad-op")
   | ["dump"] => (st, if was.isSome then "dead" else dump st.s)
+  | ["admin"] => (st, if was.isSome then "dead" else admin st.s)
   | ["dbdump"] => (st, dump { st.s with mem := { st.s.mem with users := st.s.db.users } })
   | _ => (st, "bad-op")
 
